@@ -35,6 +35,7 @@ type StreamCfg struct {
 	HugePES      bool // one video unit of more than a thousand packets (a large frame)
 	DiscPUSI     bool // some PES units start with discontinuity_indicator set (a splice point)
 	SplitPAT     bool // the PAT may come as two sections listing different programs
+	PATMove      bool // a second PAT version moves a program to another PMT PID
 }
 
 // typedTags are the descriptor tags the library has typed decoders for.
@@ -298,6 +299,13 @@ func GenModel(r *core.PRNG, cfg StreamCfg) *refts.Model {
 		}
 		pmts = append(pmts, pm)
 	}
+	movedNumber, movedY := uint16(0), uint16(0)
+	if cfg.PATMove && cfg.PMT > 0 && cfg.PATRepeat >= 2 {
+		// one more program whose PMT PID changes with the second PAT version (its PMT is only
+		// carried on the new PID)
+		movedNumber, movedY = uint16(cfg.PMT+1), pickPID()
+		pat.Programs = append(pat.Programs, refts.PATProgram{Number: movedNumber, PID: pickPID()})
+	}
 	if cfg.PMT > 0 && r.Chance(1, 4) {
 		pat.Programs = append([]refts.PATProgram{{Number: 0, PID: 0x10}}, pat.Programs...)
 	}
@@ -378,6 +386,7 @@ func GenModel(r *core.PRNG, cfg StreamCfg) *refts.Model {
 	// PAT stream
 	if cfg.PMT > 0 {
 		s := refts.Stream{PID: 0, Kind: "PAT", CC0: uint8(r.Intn(16))}
+		patVersion0 := uint8(0)
 		n := cfg.PATRepeat
 		if n < 1 {
 			n = 1
@@ -386,6 +395,22 @@ func GenModel(r *core.PRNG, cfg StreamCfg) *refts.Model {
 			u := psiUnit([]string{"PAT"}, nil)
 			u.Sections = u.Sections[:1]
 			fixSingle(r, &u, cfg)
+			if movedNumber != 0 && u.Sections[0].PAT != nil {
+				if i == 0 {
+					patVersion0 = u.Sections[0].Version
+				} else {
+					p2 := *u.Sections[0].PAT
+					p2.Programs = append([]refts.PATProgram{}, p2.Programs...)
+					for k := range p2.Programs {
+						if p2.Programs[k].Number == movedNumber {
+							p2.Programs[k].PID = movedY
+						}
+					}
+					u.Sections[0].PAT = &p2
+					u.Sections[0].Version = (patVersion0 + 1) & 31
+					u.Sections[0].Next = false
+				}
+			}
 			if cfg.SplitPAT && len(pat.Programs) >= 2 && u.Sections[0].PAT != nil {
 				// a PAT of two sections (section_number 0 and 1 of 1), each listing part of the programs
 				a, b := u.Sections[0], u.Sections[0]
@@ -405,6 +430,17 @@ func GenModel(r *core.PRNG, cfg StreamCfg) *refts.Model {
 			s.Units = append(s.Units, u)
 		}
 		m.Streams = append(m.Streams, s)
+		if movedNumber != 0 && len(s.Units) >= 2 {
+			pmY := &refts.PMT{Program: movedNumber, PCRPID: 0x1fff}
+			if r.Bool() {
+				pmY.Streams = append(pmY.Streams, refts.PMTStream{Type: streamTypes[r.Intn(len(streamTypes))], PID: pickPID(), Descs: genDescs(r, 8)})
+			}
+			y := refts.Stream{PID: movedY, Kind: "PMT", CC0: uint8(r.Intn(16)), WaitPAT: len(s.Units[0].Chunks) + len(s.Units[1].Chunks)}
+			for k, nu := 0, r.Range(1, 2); k < nu; k++ {
+				y.Units = append(y.Units, psiUnit([]string{"PMT"}, pmY))
+			}
+			m.Streams = append(m.Streams, y)
+		}
 		for i, pp := range pmtPIDs {
 			s := refts.Stream{PID: pp, Kind: "PMT", CC0: uint8(r.Intn(16))}
 			n := units()
@@ -580,10 +616,26 @@ func GenMerge(r *core.PRNG, m *refts.Model, mode int) []int {
 	var picks []int
 	patIdx := -1
 	patLeft := 0
+	patFirst := 0
 	for i, s := range m.Streams {
 		if s.Kind == "PAT" && len(s.Units) > 0 {
 			patIdx = i
 			patLeft = len(s.Units[0].Chunks)
+			patFirst = patLeft
+		}
+	}
+	// PAT packets a PMT stream waits for: the first PAT unit, or more for a PID that only a later
+	// PAT version announces
+	patSent := 0
+	need := func(i int) int {
+		if w := m.Streams[i].WaitPAT; w > 0 {
+			return w
+		}
+		return patFirst
+	}
+	for _, s := range m.Streams {
+		if s.Kind == "PMT" && s.WaitPAT > patLeft {
+			patLeft = s.WaitPAT
 		}
 	}
 	// budget of packets a PMT stream may send before the PAT is complete
@@ -596,6 +648,12 @@ func GenMerge(r *core.PRNG, m *refts.Model, mode int) []int {
 			}
 		}
 	}
+	for i, s := range m.Streams {
+		// a PID announced by a later PAT version may have been seen before that PAT arrives
+		if s.Kind == "PMT" && s.WaitPAT > 0 && len(s.Units) > 0 && len(s.Units[0].Chunks) >= 2 && r.Bool() {
+			early[i] = r.Range(1, len(s.Units[0].Chunks)-1)
+		}
+	}
 	total := 0
 	for _, c := range left {
 		total += c
@@ -604,7 +662,7 @@ func GenMerge(r *core.PRNG, m *refts.Model, mode int) []int {
 		if left[i] == 0 {
 			return false
 		}
-		if patIdx >= 0 && patLeft > 0 && m.Streams[i].Kind == "PMT" {
+		if patIdx >= 0 && m.Streams[i].Kind == "PMT" && patSent < need(i) {
 			return counts[i]-left[i] < early[i]
 		}
 		return true
@@ -619,7 +677,17 @@ func GenMerge(r *core.PRNG, m *refts.Model, mode int) []int {
 			}
 		}
 		if len(cand) == 0 {
-			cand = []int{patIdx}
+			if patIdx < 0 || left[patIdx] == 0 {
+				// cannot happen for generated models (a waiting stream implies PAT packets left);
+				// release everything rather than loop
+				for i := range left {
+					if left[i] > 0 {
+						cand = append(cand, i)
+					}
+				}
+			} else {
+				cand = []int{patIdx}
+			}
 		}
 		var s int
 		switch mode {
@@ -645,14 +713,17 @@ func GenMerge(r *core.PRNG, m *refts.Model, mode int) []int {
 			s = cand[r.Intn(len(cand))]
 		}
 		// keep the PAT from being starved forever while PMT streams wait for it
-		if patIdx >= 0 && patLeft > 0 && r.Chance(1, 3) {
+		if patIdx >= 0 && patLeft > 0 && left[patIdx] > 0 && r.Chance(1, 3) {
 			s = patIdx
 		}
 		picks = append(picks, s)
 		left[s]--
 		total--
-		if s == patIdx && patLeft > 0 {
-			patLeft--
+		if s == patIdx {
+			patSent++
+			if patLeft > 0 {
+				patLeft--
+			}
 		}
 	}
 	return picks
